@@ -123,7 +123,9 @@ ReqViol(st, e, staged1) ==
 
 ReqStep(st, e) ==
   LET k == e.kind
-      staged1 == IF k = "load" /\ Executed(e) THEN LoadAct(st.staged, e.update, e.action)
+      (* (the router changes a database only while the session has one open) *)
+      dbOpen == ~Has(e, "db_open") \/ e.db_open
+      staged1 == IF k = "load" /\ Executed(e) /\ dbOpen THEN LoadAct(st.staged, e.update, e.action)
                  ELSE IF k = "open" /\ Executed(e) THEN st.eph ELSE st.staged
       names == IF k = "load" THEN {e.update.policies[i].policy : i \in {i \in 1..Len(e.update.policies) : ~e.update.policies[i].delete}} ELSE {}
       dels  == IF k = "load" THEN {e.update.policies[i].policy : i \in {i \in 1..Len(e.update.policies) : e.update.policies[i].delete}} ELSE {}
@@ -138,7 +140,7 @@ ReqStep(st, e) ==
         !.faulted = @ \/ (e.fault \notin {"none", "late-ok"} /\ ~(k = "close-session" /\ e.fault = "close-after")),
         !.commitSeen = @ \/ k = "commit",
         !.commitAcked = @ \/ (k = "commit" /\ Acked(e) /\ Effective(e)),
-        !.eph = IF k = "commit" /\ (e.fault \in {"none", "late-ok"} \/ Mut(e)) /\ Effective(e) THEN staged1 ELSE @,
+        !.eph = IF k = "commit" /\ (e.fault \in {"none", "late-ok"} \/ Mut(e)) /\ Effective(e) /\ dbOpen THEN staged1 ELSE @,
         !.closeDbAcked = @ \/ (k = "close-db" /\ Acked(e) /\ e.fault \in {"none", "late-ok"}),
         !.closeSessAcked = @ \/ (k = "close-session" /\ Acked(e)),
         !.updated = @ \cup names, !.deleted = @ \cup dels,
